@@ -16,7 +16,8 @@ RULE = ("cases = dataset (D8 near-unanimous = coherent by construction, identica
 ASSUMPTIONS = ["reference model vf/ref.py", "dyadic penalties (equal-cost decisions are exact)",
                "CPython: choice / randint / shuffle all draw through Random._randbelow"]
 SUMMARY_KEYS = ["runs", "sequences", "exhaustive_datasets", "coherent_datasets", "identical_datasets", "steps_checked"]
-EXHAUSTIVE = True
+EXHAUSTIVE = False      # exhaustive per dataset (all pivot sequences), not over datasets: see exhaustive_subspaces
+EXHAUSTIVE_NOTE = "for every dataset counted in counters.exhaustive_datasets ALL pivot sequences were executed"
 CRASH_IS_VIOLATION = False
 
 PIVOTS = []
